@@ -123,6 +123,40 @@ def mutate_cmd(rng, cmd):
     return " ".join(toks)
 
 
+# tokens that are the shortest member (or a near miss) of every lexical class the command and config parsers distinguish
+DEGEN = ["/", "//", "/x", "x/", "$", "${", "${1", "$1", "\\", "=", "(", ")", "[", "*", "-", "-1", "0", ".", ";", "'", ",", ":", "prefix=", "regex=/", "x=y", "@"]
+
+
+def degenerate_cmds(rng, tier):
+    """every documented command with one token (not the verb) replaced by a degenerate one"""
+    out = []
+    for ex in EXAMPLES:
+        toks = ex.split(" ")
+        for i in range(1, len(toks)):
+            if toks[i] == "":
+                continue
+            for g in DEGEN:
+                out.append(" ".join(toks[:i] + [g] + toks[i + 1:]))
+    rng.shuffle(out)
+    return out
+
+
+def degenerate_tomls(rng, tier):
+    """the TOML templates with one quoted string replaced by a degenerate token"""
+    out = []
+    for t in TOMLS + ['[[rewriter]]\nold = "foo"\nnew = "bar"\nnot = "baz"\nmax = -1\n', 'blacklist = ["prefix foo", "regex ^bar", "sub baz"]\n']:
+        spans = [m.span(1) for m in re.finditer(r'"([^"@\n]*)"', t)]
+        for (a, b) in spans:
+            for g in ["/", "//", "$", "(", "", " ", "regex", "prefix"]:
+                out.append(t[:a] + g + t[b:])
+    rng.shuffle(out)
+    if tier != "quick":
+        return out
+    # quick: every variant of the templates whose strings are parsed further (rewriter specs, blacklist entries), a sample of the rest
+    first = [t for t in out if t.startswith("[[rewriter]]") or t.startswith("blacklist")]
+    return first + [t for t in out if t not in first][:12]
+
+
 def hostile_pickles(rng):
     out = []
     ok = pickle.dumps([("foo.a", (NOW, 1.5)), ("foo.b", (NOW, 2))], protocol=2)
@@ -235,6 +269,12 @@ def gen_subs(rng, tier):
         subs.append(S(cmds=cmds, lines=lines_for("foo") + lines_for("stats.timers.app1.requests"), wait_ms=300))
     subs.append(S(cmds=["", " ", "\x00\x01\x02", "a" * 5000, "addAgg", "addRoute", "addRoute grafanaNet", "addRoute kafkaMdm k  @DEAD@ t snappy @DIR@/storage-schemas.conf byOrg 1",
                         "addRoute pubsub p  proj topic", "addRewriter a b", "addRewriter /(/ b 1", "addBlack regex (", "addBlack bogus x"], lines=lines_for("foo")))
+    # E2. degenerate tokens in every position of every documented command (40 commands per relay), and in the TOML strings
+    dc = degenerate_cmds(rng, tier)
+    for i in range(0, len(dc), 40):
+        subs.append(S(cmds=dc[i:i + 40], lines=lines_for("foo") + lines_for("stats.timers.app1.requests"), wait_ms=300))
+    for t in degenerate_tomls(rng, tier):
+        subs.append(S(toml=t, lines=lines_for("foo"), wait_ms=300))
     # F. inputs
     subs.append(S(cmds=[route_cmd(rng, "sendAllMatch"), agg_cmd(rng, "1", "0")],
                   inputs=[{"kind": "pickle_tcp", "b": p.hex()} for p in hostile_pickles(rng)], wait_ms=600))
@@ -268,8 +308,8 @@ def gen(rng, tier):
 
 
 # ---- what the model is told: the numeric parameters of the commands it knows ----
-AGG_RE = re.compile(r"^addAgg (sum|avg|max|min|last|count|delta|derive|stdev) ((?:(?:regex|prefix|sub|notRegex|notPrefix|notSub)=\S+ )*)(\S+) (\d+) (\d+)((?: (?:cache|dropRaw)=(?:true|false))*) *$")
-DEST_RE = re.compile(r"^addRoute (sendAllMatch|sendFirstMatch|consistentHashing) (\S+) ((?:(?:regex|prefix|sub)=\S+ )*) (.+)$")
+AGG_RE = re.compile(r"^addAgg (sum|avg|max|min|last|count|delta|derive|stdev) ((?:(?:regex|prefix|sub|notRegex|notPrefix|notSub)=\S+ )*)((?![\d.+-]*\s)[^\s=]+) (\d+) (\d+)((?: (?:cache|dropRaw)=(?:true|false))*) *$")
+DEST_RE = re.compile(r"^addRoute (sendAllMatch|sendFirstMatch|consistentHashing) ((?![\d.+-]*\s)[^\s=]+) ((?:(?:regex|prefix|sub)=\S+ )*) (.+)$")   # a key with '=' is lexed as an option: not modelled
 
 
 GN_RE = re.compile(r"^addRoute grafanaNet gn prefix=foo  http://@SINK@/metrics apikey @DIR@/storage-schemas\.conf @DIR@/storage-aggregation\.conf((?: (?:concurrency|bufSize|flushMaxNum|flushMaxWait|timeout|orgId|errBackoffMin)=\d+)*)$")
